@@ -601,6 +601,13 @@ def run_impl(case):
     class RecStatic(StaticPlacementPass):
         def find_monomorphic_subgraph(self, physical_graph, logical_graph):
             r = super().find_monomorphic_subgraph(physical_graph, logical_graph)
+            if case.get('static_adv'):
+                # adversarial search result (the search is an oracle of the model): a random injective list of
+                # machine qudits, usually NOT a monomorphism, sometimes of the wrong length - the acceptance
+                # test of run() (Placement.static_accepts / C09_static_placement) has to sort it out
+                srng = random.Random(case['static_adv'])
+                k = logical_graph.num_qudits if srng.random() < 0.85 else max(0, logical_graph.num_qudits - 1)
+                r = srng.sample(range(physical_graph.num_qudits), min(k, physical_graph.num_qudits))
             static_found['found'] = [int(x) for x in r]
             static_found['ledges'] = sorted([int(a), int(b)] for a, b in logical_graph)
             return r
@@ -802,6 +809,12 @@ def model_lines(case, obs):
     obs['stage_infos'] = stage_infos
     for name, info in stage_infos:
         lines.append(stage_line(case, obs, name, info))
+    # SabreStrict.replay_strict (the run relation of C09_progress_bounds / C09_guards_do_not_bound_rounds):
+    # must accept exactly the recorded passes whose every step is enabled and obeys the loop guards
+    for rec in obs['log']:
+        lines.append('strict %s %s %d %d %d %s %s' % (
+            fmt(rec.cg), fmt(circ_tokens(rec.ops)), rec.nq, 1 if rec.kind == 'fwd' else 0,
+            1 if rec.modify else 0, fmt(rec.pi0), fmt(rec.steps)))
     if case.get('variant', 'std') == 'std':
         log = obs['log']
         lay = [r for r in log if not r.modify]
@@ -1015,6 +1028,7 @@ def oracle(case, obs, rng):
                     bad.append(('uncoupled', 'edge of the machine', '%s at cycle %d (physical %s)' % (op, cyc, loc)))
             elif not connected(m_mach, edges, loc):
                 bad.append(('uncoupled', 'connected induced subgraph', '%s at cycle %d (physical %s)' % (op, cyc, loc)))
+    bad += placement_oracle(case, obs)
     # 2. mappings
     for name, mp_ in (('initial_mapping', im), ('final_mapping', fm)):
         if len(mp_) != n or len(set(mp_)) != n or not all(0 <= x < m for x in mp_):
@@ -1068,6 +1082,78 @@ def oracle(case, obs, rng):
             break
     return bad
 
+
+
+def placement_oracle(case, obs):
+    """what C09_trivial/greedy/static_placement, C09_checked_placement_connected and C09_apply_placement say,
+    re-computed independently on the implementation's PassData before / after every placement pass and every
+    ApplyPlacement (textbook connectivity by BFS; no model involved)"""
+    bad = []
+    n = case['n']
+    infos = dict(obs['infos'])
+    force = obs.get('force', {})
+    for name, after in obs['stages']:
+        info = infos[name]
+        before = info['before']
+        if name.startswith('placement'):
+            es = force.get(name)
+            if es is None:
+                continue
+            m_mach = case['m']
+            edges = {tuple(sorted(e)) for e in es}
+            plc, pl = after['placement'], case['placer']
+            if after['imap'] != before['imap'] or after['fmap'] != before['fmap']:
+                bad.append(('placement', 'a placement pass leaves the mappings alone', (before, after)))
+            if pl == 'S' and plc == before['placement']:
+                continue                      # search result rejected (or equal): PassData untouched
+            ok = len(plc) == n and len(set(plc)) == n and all(0 <= x < m_mach for x in plc)
+            if pl in 'GT':
+                ok = ok and connected(m_mach, edges, plc)
+            if not ok:
+                bad.append(('placement', 'placement pass publishes %d distinct machine qudits%s' % (
+                    n, ' inducing a connected subgraph' if pl in 'GT' else ''), plc))
+                continue
+            if pl == 'T' and plc != list(range(n)):
+                bad.append(('placement', 'trivial placement = range(n)', plc))
+            if pl == 'G':
+                deg = [0] * m_mach
+                for a, b in edges:
+                    deg[a] += 1
+                    deg[b] += 1
+                if plc != sorted(plc) or deg.index(max(deg)) not in plc:
+                    bad.append(('placement', 'greedy placement: ascending and containing the first qudit of maximal degree %d'
+                                % deg.index(max(deg)), plc))
+            if pl == 'S':
+                led = obs.get('static', {}).get('ledges', [])
+                miss = [e for e in led if tuple(sorted((plc[e[0]], plc[e[1]]))) not in edges]
+                if miss:
+                    bad.append(('placement', 'static placement maps every circuit edge onto a machine edge', (plc, miss)))
+        elif name.startswith('apply'):
+            pl = before['placement']
+            try:
+                exp = dict(imap=[pl[x] for x in before['imap']], fmap=[pl[x] for x in before['fmap']],
+                           placement=list(range(case['m'])))
+            except IndexError:
+                bad.append(('mapping', 'mappings index the placement', before))
+                continue
+            if exp != dict(imap=after['imap'], fmap=after['fmap'], placement=after['placement']):
+                bad.append(('mapping', 'ApplyPlacement: mappings composed with the placement, placement reset: %s' % exp, after))
+            tl = info.get('tl_after')
+            cb = info.get('circ_before')
+            if tl is not None and cb is not None:
+                want = [[] for _ in range(len(tl))]
+                try:
+                    for op in cb:
+                        loc = tuple(pl[q] for q in op.location)
+                        for q in loc:
+                            want[q].append((gname(op.gate), loc))
+                except IndexError:
+                    bad.append(('placement', 'placement covers every wire of the circuit', pl))
+                    continue
+                if canon_tl(want) != canon_tl(tl):
+                    bad.append(('placement', 'ApplyPlacement: every operation moved to placement[location]',
+                                dict(placement=pl)))
+    return bad
 
 
 # --------------------------------------------------------------------------
@@ -1462,7 +1548,77 @@ def pam_model_lines(case, obs):
             else:
                 lines.append('prt %s %s %s %s %s %d %s' % (g, pdb, fmt(circ_tokens(ops)), fmt(bars), fmt(tbl),
                                                           info['nq_before'], fmt(psteps(recs[0]) if recs else [])))
+    pl = pam_pipe_line(case, obs)
+    if pl is not None:
+        obs['ppipe_idx'] = len(lines)
+        lines.append(pl)
     return lines
+
+
+def pam_pipe_line(case, obs):
+    """the whole standard PAM workflow [SetModel, placement?, PAMLayout?, PAMRouting, ApplyPlacement] as ONE
+    call of the function of C09_pam_mappings / C09_pam_mappings_same_unitary (PamPipe.pam_pipeline)"""
+    if obs['error'] is not None or case.get('direct_model') or case['seq'] != 'A':
+        return None
+    infos = dict(obs['infos'])
+    rt = infos['prouting']
+    ops = rt['circ_before']
+    if 'playout' in infos and [gname(o.gate) for o in infos['playout']['circ_before']] != [gname(o.gate) for o in ops]:
+        return None          # cannot happen: the layout pass does not touch the circuit (checked by the stage run)
+    tbl, reg = pam_table(ops, rt['points_before'], obs['perm_data'])
+    bars = [1 if type(op.gate).__name__ == 'BarrierPlaceholder' else 0 for op in ops]
+    if 'playout' in infos:
+        recs = infos['playout']['log']
+        pairs = [[[list(x) for x in recs[i].steps], recs[i + 1].steps] for i in range(0, len(recs) - 1, 2)]
+        if len(recs) % 2:
+            return None
+        ltr = fmt(pairs)
+    else:
+        ltr = 'N'
+    rrecs = rt['log']
+    if len(rrecs) != 1:
+        return None
+    obs['ppipe_reg'] = reg
+    obs['ppipe_ops'] = ops
+    return 'ppipe %s %s %s %s %d %s %s %s' % (fmt(obs['mach_adj']), fmt(circ_tokens(ops)), fmt(bars), fmt(tbl), case['n'],
+                                              case['placer'], ltr, fmt([list(x) for x in rrecs[0].steps]))
+
+
+def compare_ppipe(case, obs, ans):
+    if isinstance(ans, str):
+        return [('pam pipeline: PamPipe.pam_pipeline fails, the implementation completed', dict(obs['stages'])['apply'], ans)]
+    diffs = []
+    out, pd = ans
+    iv = dict(obs['stages'])['apply']
+    exp = [iv['placement'], iv['imap'], iv['fmap']]
+    if pd != exp:
+        diffs.append(('pam pipeline: PassData (placement, initial_mapping, final_mapping) after ApplyPlacement', pd, exp))
+    info = dict(obs['infos'])['apply']
+    na = canon_tl(pout_timelines(out, obs['ppipe_ops'], obs['ppipe_reg'], len(info['tl_after'])))
+    if na != canon_tl(info['tl_after']):
+        diffs.append(('pam pipeline: final circuit per-qudit timelines', na, canon_tl(info['tl_after'])))
+    # the second clause of C09_pam_mappings_same_unitary evaluated on the implementation's own numbers:
+    # final_mapping = initial_mapping pushed through the wire maps of the final circuit
+    walked = pwalk_py(iv['imap'], out)
+    if walked != iv['fmap']:
+        diffs.append(('pam pipeline: final_mapping = initial_mapping pushed through the final circuit', walked, iv['fmap']))
+    return diffs
+
+
+def pwalk_py(sigma, pout):
+    """independent re-computation of PamSem.pwalk on python lists"""
+    sigma = list(sigma)
+    for o in pout:
+        if o[0] == 'G':
+            L, pre, post = o[2], o[3], o[4]
+            ipre = [pre.index(j) for j in range(len(pre))]
+            for r in (ipre, post):
+                mv = {L[j]: L[r[j]] for j in range(len(L))}
+                sigma = [mv.get(x, x) for x in sigma]
+        elif o[0] == 'S':
+            a, b = o[1], o[2]
+            sigma = [b if x == a else a if x == b else x for x in sigma]
+    return sigma
 
 
 def pout_timelines(pout, rec_or_ops, reg, nq):
@@ -1676,6 +1832,9 @@ def finish_pam(case, obs, lines, outs):
         else:
             res['diffs'] += compare_pass(rec, parse(outs[i]), 'bwd pass #%d' % i)
     res['diffs'] += compare_pam_stages(case, obs, [parse(a) for a in outs[nlog:]])
+    if obs.get('ppipe_idx') is not None:
+        res['diffs'] += compare_ppipe(case, obs, parse(outs[obs['ppipe_idx']]))
+        res['stats']['ppipe'] = 1
     res['oracle'] = pam_oracle(case, obs, random.Random(json.dumps(case, sort_keys=True)))
     st = res['stats']
     st['pam'] = 1
@@ -1782,6 +1941,21 @@ def gen_cases(ctx):
         c['seq'] = rng.choice(seqs)
         c['edges2'] = [list(e) for e in prefix_connected_graph(rng, m, n, rng.choice([0.0, 0.15]))]
         cases.append(c)
+    # placement passes and ApplyPlacement alone, on larger random connected machines (the theorems
+    # C09_trivial/greedy/static_placement, C09_checked_placement_connected, C09_apply_placement)
+    for _ in range(ctx.n(60, 800)):
+        m = rng.randint(4, 14)
+        n = rng.randint(2, min(m, 8))
+        es = random_connected_graph(rng, m, rng.choice([0.0, 0.05, 0.15, 0.4])) if rng.random() < 0.6 \
+            else prefix_connected_graph(rng, m, n, rng.choice([0.0, 0.1]))
+        c = make_case(rng, n, m, es, nops=rng.randint(2, 8), placer=rng.choice(['G', 'G', 'T', 'S', 'S']), layout=0)
+        c['variant'] = 'seq'
+        c['seq'] = rng.choice([['SM0', 'PL', 'AP'], ['SM0', 'PL', 'AP'], ['SM0', 'PL']])
+        c['edges2'] = [list(e) for e in es]
+        c['stream'] = 'placement'
+        if c['placer'] == 'S' and rng.random() < 0.7:
+            c['static_adv'] = rng.randrange(1, 1 << 30)
+        cases.append(c)
     # permutation-aware mapping (PAM) with exact pre-synthesised triples
     for _ in range(ctx.n(90, 1500)):
         cases.append(gen_pam_case(rng))
@@ -1840,6 +2014,15 @@ def finish(case, obs, lines, outs):
         res['diffs'] += compare_pass(rec, parse(outs[i]), '%s pass #%d' % (rec.kind, i))
     nst = len(obs['stage_infos'])
     res['diffs'] += compare_stages(case, obs, [parse(a) for a in outs[nlog:nlog + nst]])
+    for i, rec in enumerate(obs['log']):
+        pa, sa = parse(outs[i]), outs[nlog + nst + i]
+        if isinstance(pa, str):
+            continue
+        exp = 'T' if (pa[0] == 'OK' and all(x == 'T' for x in pa[4])) else 'F'
+        if sa != exp:
+            res['diffs'].append(('%s pass #%d: replay_strict accepts the trace' % (rec.kind, i), exp, sa))
+        elif sa == 'T':
+            res['stats']['strict_runs'] = res['stats'].get('strict_runs', 0) + 1
     if case.get('variant', 'std') == 'std':
         res['diffs'] += compare_pipe(case, obs, parse(outs[-1]))
     orng = random.Random(json.dumps(case, sort_keys=True))
@@ -1859,6 +2042,13 @@ def finish(case, obs, lines, outs):
         st['double'] = 'routing2' in stg
         st['fmap_ne_imap'] = lastpd['imap'] != lastpd['fmap']
         st['seq_variant'] = case.get('variant') == 'seq'
+    st['placement_stream'] = 1 if case.get('stream') == 'placement' else 0
+    st['static_adversarial'] = 1 if case.get('static_adv') else 0
+    if case.get('static_adv') and obs['error'] is None:
+        stg0 = dict(obs['stages'])
+        inf0 = dict(obs['infos'])
+        if 'placement' in stg0:
+            st['static_adv_rejected'] = 1 if stg0['placement']['placement'] == inf0['placement']['before']['placement'] else 0
     js = lambda x: json.loads(json.dumps(x, default=str))  # noqa
     res['diffs'] = [(w, js(e), js(o)) for w, e, o in res['diffs']]
     res['oracle'] = [(w, js(e), js(o)) for w, e, o in res['oracle']]
@@ -2024,14 +2214,16 @@ def run(ctx: vf.Ctx):
         'cases (and all of a sparse-graph stream) the swap choice is replaced by a seeded adversary so that '
         'backtracking and uphill swaps occur; a stream that routes twice on two different graphs (final_mapping composed '
         'with a non-identity mapping); a PAM stream (PAMLayoutPass / PAMRoutingPass, sequences with and without a first '
-        'ApplyPlacement) on circuits of 1-3 qudit blocks and barriers with EXACT pre-synthesised triples built for every '
+        'ApplyPlacement; the standard-shaped ones also replayed as ONE call of PamPipe.pam_pipeline) on circuits of 1-3 qudit blocks and barriers with EXACT pre-synthesised triples built for every '
         'connected local graph and (pre, post) permutation pair of the chosen mode, perm scores randomised in half of them; '
+        'a placement-only stream ([SetModel, Trivial/Greedy/Static placement, ApplyPlacement?] on random connected machines of 4..14 qudits); '
         '~8%% malformed (disconnected machine, machine too small). '
         'non-trivial = at least one swap emitted or placement != identity; distinct by canonical JSON of the case'
         % ctx.n(4, 5))
     ctx.assumptions += [
         'partial correctness only: termination of the SABRE loop depends on the float heuristic and is not proved '
-        '(every recorded run terminated)',
+        '(every recorded run terminated); proved instead: at most |c| Exec steps, at most 5|cg|+1 consecutive swaps under the '
+        'loop guards, and that the guards admit arbitrarily many fruitless Swap*-Backtrack rounds (C09_guards_do_not_bound_rounds)',
         'the heuristic (scores, decay, extended set, set iteration order) is an oracle: theorems hold for every enabled choice',
         'semantic clause of the theorems is stated for an arbitrary monoid semantics with commuting independent gates and '
         'swap naturality; the matrix instance is exercised by the exact basis-state oracle only',
@@ -2093,6 +2285,10 @@ def run(ctx: vf.Ctx):
                                            PamExec=agg.get('P', 0), PamExec_nonidentity_perm=agg.get('P_nonid', 0), PamExec_pre_3cycle=agg.get('P_pre_3cycle', 0),
                                            PamBarrier=agg.get('PB', 0))
     ctx.cov['pam_cases'] = agg.get('pam', 0)
+    ctx.cov['passes_accepted_by_replay_strict'] = agg.get('strict_runs', 0)
+    ctx.cov['pam_pipelines_replayed'] = agg.get('ppipe', 0)
+    ctx.cov['placement_only_cases'] = agg.get('placement_stream', 0)
+    ctx.cov['static_adversarial_search_results'] = dict(cases=agg.get('static_adversarial', 0), rejected=agg.get('static_adv_rejected', 0))
     ctx.cov['harness_seconds'] = round(time.time() - t_h, 1)
     ctx.cov['passes_replayed'] = agg.get('passes', 0)
     ctx.cov['cases_with_nonidentity_placement'] = agg.get('placement_nonid', 0)
@@ -2100,7 +2296,9 @@ def run(ctx: vf.Ctx):
     ctx.cov['functions_with_theorems'] = ['apply_swap', 'apply_perm', 'compose', 'do_step/replay (Exec, Swap, Backtrack, Uphill)',
                                           'routing_pass', 'layout_pass', 'set_model', 'trivial/greedy/static placement (injectivity)',
                                           'apply_placement', 'pipeline', 'do_pstep/preplay (PAM)', 'perm_exec',
-                                          'pam_routing_pass', 'pam_layout_pass']
+                                          'pam_routing_pass', 'pam_layout_pass', 'pam_apply_placement', 'pam_pipeline',
+                                          'trivial_placement / greedy_placement / greedy_loop (connected by construction) / '
+                                          'static_placement (own specifications)', 'replay_strict (bounds; unbounded rounds)']
     ctx.cov['correspondence_only'] = ['greedy_loop tie-breaking order', 'front/rear against Circuit.front/rear']
     ctx.cov['uncovered'] = ['EmbedAllPermutationsPass / SubtopologySelectionPass (numerical synthesis; the harness builds exact perm data instead)',
                             'termination of the SABRE / PAM main loop']
